@@ -628,7 +628,7 @@ void run(const Plan& p) {
     if (done >= s.nlog) break;
     sleep_ns(50000);
   }
-  bool concurrent_close = p.get("close_variant", 0) != 0;
+  bool concurrent_close = p.get("close_variant", 0) != 0 && s.mode != 2;
   if (!concurrent_close) {
     w.join();
     if (others_alive() != 1) check_writer_alive(0, "after all logging threads finished");
@@ -636,8 +636,8 @@ void run(const Plan& p) {
   if (s.mode == 2) {
     // probe mode: let the writer reach whatever is queued, so that the verdict
     // does not depend on how far it got when close() is called
-    while (others_alive() > (concurrent_close ? s.nlog : 0) && s.app.pending_size() > 0) ::usleep(100);
-    for (int i = 0; i < 50 && concurrent_close && others_alive() > 1; i++) ::usleep(100);
+    while (others_alive() == 1 && s.app.pending_size() > 0) ::usleep(100);
+    for (int i = 0; i < 3 && others_alive() == 1; i++) ::usleep(1000);  // let the writer finish the round it is in
     if (others_alive() == 0) check_writer_alive(0, "after all logging threads finished");
   }
   // Default mix: do not call close() while the slot its stop marker will use is
